@@ -48,6 +48,14 @@ class CoreScenario(Scenario):
             self.inp[iid] = sig
         return top
 
+    def on_elab_error(self, e):
+        # one transaction using both sides of a conflict on paths that are not mutually exclusive cannot honour
+        # the conflict; refusing the design is the library's answer (after fix F8) and counts as the property held
+        if isinstance(e, RuntimeError) and "conflict" in str(e) and any(d[0] == "self-conflict" for d in self.a.defects()):
+            self.hit("self_conflict_design_refused")
+            return True
+        return False
+
     def post_elab(self, tm):
         b, o = self.b, self.obs
         for tid, t in b.trans.items():
